@@ -368,6 +368,20 @@ Definition lex_interval (units : list str) (s : str) : option (lit * str) :=
       end
   end.
 
+(* PROPOSED, not what the lexer does (fixes/C08-N1-interval-count-overflow.diff): a count beyond i64::MAX is not an
+   interval literal (try_map fails, the choice in literal() goes on to number()) *)
+Definition lex_interval_checked (units : list str) (s : str) : option (lit * str) :=
+  match parse_integer s with
+  | None => None
+  | Some (ip, r1) =>
+      match match_unit units r1 with
+      | Some (u, r2) => if end_expr r2 then
+                          let v := base_value 10 (no_us ip) in if v <=? I64_MAX then Some (LInterval v u, r2) else None
+                        else None
+      | None => None
+      end
+  end.
+
 Definition lex_literal_u (units : list str) (tbl : list (N * N)) (rows : list (str * N * nat)) (s : str) : option (lit * str) :=
   let fstr := match s with
               | f :: r => if f =? 102 then option_map (fun p => (LFString (fst p), snd p)) (quoted_string tbl true r) else None
